@@ -447,7 +447,7 @@ class GenInv:
         if k == "Prod":
             ms = [self.tree(n, d, cplx) for _ in range(r.randint(2, 3))]
             via = None
-            if r.random() < 0.3:
+            if r.random() < 0.3 and not ("dot_identity_ambiguous" in self.present and any(m["k"] == "Ident" for m in ms)):
                 via = "matmul"
             elif r.random() < 0.25:   # c * A
                 ms = [dict(k="Scal", dt=self.dt(cplx), c=self.val(cplx, -3, 3, nz=True), n=n), ms[0]]
